@@ -1308,6 +1308,10 @@ func (pw *pathWalker) run(s *pwState) []*pwState {
 					// ... or a particular function (a predicate handed to a helper)
 					if f, ok := s.p.resolve(x.Call.Value).(*ssa.Function); ok {
 						callee = f
+						// a method expression ((*Context).Has handed to a helper) is a thunk around the method: walked through
+						if strings.HasPrefix(f.Synthetic, "thunk for") {
+							boundWrapper = true
+						}
 					}
 				}
 				onStack := false
